@@ -308,6 +308,22 @@ pub fn c20_gen_input(rng: &mut Rng, opts: &GenOpts) -> (ExecInput, bool, String,
         p.stanzas.insert(pos, x.to_string());
         fault = "cross-stanza conflict".to_string();
     }
+    if fault.is_empty() && rng.chance(35) {
+        // the fault sits in the SCOPE of a scoped-variable definition (a graph node instead of a syntax node): in lazy mode
+        // it is found when the variables of that name are forced -- by a reader in another stanza, by a reader through a
+        // local variable inside a nested block, or by nobody (final sweep) -- and must cite the DEFINITION
+        let x = *rng.pick(&[
+            "(module) @_mz {\n  node zn\n  let zn.zdef = 1\n}\n\n(identifier) @id {\n  node k\n  attr (k) val = @id.zdef\n}\n",
+            "(identifier) @id {\n  node k\n  attr (k) val = @id.zdef\n}\n\n(module) @_mz {\n  node zn\n  let zn.zdef = 1\n}\n",
+            "(module (_)* @xs) @_mz {\n  node zn\n  let zn.zdef = 1\n  for x in @xs {\n    let v = x.zdef\n    print v\n  }\n}\n",
+            "(module) @_mz {\n  node zn\n  let zn.zdef = 1\n}\n",
+            "(module) @_mz {\n  node zn\n  if some @_mz {\n    let zn.zdef = 1\n  }\n}\n\n(module) @mod {\n  node r\n  edge r -> @mod.zdef\n}\n",
+            "(module) @_mz {\n  let zs = \"text\"\n  node zs.zdef\n}\n",
+        ]);
+        let pos = rng.below(p.stanzas.len() + 1);
+        p.stanzas.insert(pos, x.to_string());
+        fault = "fault in the scope of a scoped-variable definition".to_string();
+    }
     if fault.is_empty() {
         // a stanza that matches nodes of DIFFERENT kinds, several of them starting at the same position (module / first
         // statement / its expression ...), and fails only for some kinds: the error belongs to a LATER match of the stanza
